@@ -63,10 +63,10 @@ theorem read_exact (hc : Conforming dev view lim plan ms) (p : Profile) (s : St 
     ∃ s', Control.read dev p s a n = (s', .ok (readRange (view s.d).mem a n)) ∧
       (view s'.d).mem = (view s.d).mem ∧ s'.h.cfg = s.h.cfg ∧ s'.h.opened = true ∧
       (view s'.d).queue = [] ∧
-      s'.logRev = (runEvents plan ms s.h.cfg.timeoutMs (readSteps (view s.d).mem lim a n)
+      s'.logRev = (runEvents plan ms s.h.cfg.xfer (readSteps (view s.d).mem lim a n)
           ⟨s.h.nextReqId, s.h.bufLen, (view s.d).txn⟩).1.reverse ++ s.logRev ∧
       (⟨s'.h.nextReqId, s'.h.bufLen, (view s'.d).txn⟩ : Prog) =
-        (runEvents plan ms s.h.cfg.timeoutMs (readSteps (view s.d).mem lim a n)
+        (runEvents plan ms s.h.cfg.xfer (readSteps (view s.d).mem lim a n)
           ⟨s.h.nextReqId, s.h.bufLen, (view s.d).txn⟩).2 := by
   have hm : Cmd.maximumReadLength p lim.maxAck = .ok (readChunk lim) := by
     rw [C10.maximumReadLength_ok p lim.maxAck (by simp only [Cmd.ACK_HEADER_LENGTH]; omega)]
@@ -76,7 +76,7 @@ theorem read_exact (hc : Conforming dev view lim plan ms) (p : Profile) (s : St 
   have hmack : 12 + readChunk lim ≤ lim.maxAck := by simp only [readChunk]; omega
   obtain ⟨s', hs', hmem, hq, hcfg, hop, _, hlog, hpr⟩ :=
     readLoop_conforming hc p (readChunk lim) a hmpos hm16 hmack hcmd hr.ms16 s.h.cfg.retry
-      hr.plan_lt_retry s.h.cfg.timeoutMs lim.maxCmd hcmd (n + 1) 0 n s [] (by omega) (by omega)
+      hr.plan_lt_retry s.h.cfg.xfer lim.maxCmd hcmd (n + 1) 0 n s [] (by omega) (by omega)
       (by omega) hr.id16 rfl hr.maxCmd rfl hr.queue_empty
   refine ⟨s', ?_, hmem, hcfg, by rw [hop]; exact hr.opened, hq, hlog, hpr⟩
   have hva : verifyAddressRange a n = .ok () := by
@@ -108,14 +108,14 @@ theorem write_exact (hc : Conforming dev view lim plan ms) (p : Profile) (s : St
       (view s'.d).mem = writeRange (view s.d).mem a data ∧ s'.h.cfg = s.h.cfg ∧
       s'.h.opened = true ∧
       (view s'.d).queue = [] ∧
-      s'.logRev = (runEvents plan ms s.h.cfg.timeoutMs (writeSteps p lim a data)
+      s'.logRev = (runEvents plan ms s.h.cfg.xfer (writeSteps p lim a data)
           ⟨s.h.nextReqId, s.h.bufLen, (view s.d).txn⟩).1.reverse ++ s.logRev ∧
       (⟨s'.h.nextReqId, s'.h.bufLen, (view s'.d).txn⟩ : Prog) =
-        (runEvents plan ms s.h.cfg.timeoutMs (writeSteps p lim a data)
+        (runEvents plan ms s.h.cfg.xfer (writeSteps p lim a data)
           ⟨s.h.nextReqId, s.h.bufLen, (view s.d).txn⟩).2 := by
   obtain ⟨s', hs', hmem, hq, hcfg, hop, _, hlog, hpr⟩ :=
     writeBlockLoop_conforming hc p a hcmd (by omega) hack hr.ms16 s.h.cfg.retry hr.plan_lt_retry
-      s.h.cfg.timeoutMs (data.length + 1) 0 data s (by omega) (by omega) (by omega) hr.id16 rfl
+      s.h.cfg.xfer (data.length + 1) 0 data s (by omega) (by omega) (by omega) hr.id16 rfl
       hr.maxCmd rfl hr.queue_empty
   refine ⟨s', ?_, by simpa using hmem, hcfg, by rw [hop]; exact hr.opened, hq, hlog, hpr⟩
   have hva : verifyAddressRange a data.length = .ok () := by
@@ -160,7 +160,7 @@ theorem ready_after_read (hc : Conforming dev view lim plan ms) (p : Profile) (s
     have h := congrArg Prog.id hpr
     simp only at h
     rw [h]
-    rcases runEvents_final plan ms s.h.cfg.timeoutMs (readSteps (view s.d).mem lim a n)
+    rcases runEvents_final plan ms s.h.cfg.xfer (readSteps (view s.d).mem lim a n)
       ⟨s.h.nextReqId, s.h.bufLen, (view s.d).txn⟩ with h2 | h2
     · rw [h2]; exact Nat.mod_lt _ (by omega)
     · rw [h2]; simp only [runEvents]; exact hr.id16
@@ -179,7 +179,7 @@ theorem ready_after_write (hc : Conforming dev view lim plan ms) (p : Profile) (
     have h := congrArg Prog.id hpr
     simp only at h
     rw [h]
-    rcases runEvents_final plan ms s.h.cfg.timeoutMs (writeSteps p lim a data)
+    rcases runEvents_final plan ms s.h.cfg.xfer (writeSteps p lim a data)
       ⟨s.h.nextReqId, s.h.bufLen, (view s.d).txn⟩ with h2 | h2
     · rw [h2]; exact Nat.mod_lt _ (by omega)
     · rw [h2]; simp only [runEvents]; exact hr.id16
